@@ -117,4 +117,17 @@ example : chain (snpsLike [("cErr", true, [], false, true), ("cSNPsDone", false,
 /-- a buffered error channel (a sender would no longer wait for the driver) -/
 example : chain (snpsLike [("cErr", true, [], false, true), ("cSNPsDone", false, ["cSNPs"], true, false)] ["cSNPs", "cErr", "cWriteDone"] "n") = none := by decide +kernel
 
+/-! ### the fan-out stages (closest, closest -n, updown topranking)
+
+`Gen.fanouts`: each `splitInput*` ranges over its input channel itself - once, outside any goroutine literal: a single
+forwarder, so every query receives the targets in file order (`Lemmas/FanoutProofs.fanout_result`; two forwarders give
+schedule-dependent results, `stepTwoForwarders_schedule_dependent`) -, launches its per-query goroutines by plain
+`go f(...)` in a loop, and makes the per-query channels unbuffered. -/
+def expectedFanouts : List (String × List String × Nat × List (String × Bool) × List String) := [
+  ("closest.splitInput", ["cIn"], 0, [("findClosest", true)], ["0"]),
+  ("closest.splitInputN", ["cIn"], 0, [("findClosestN", true)], ["0"]),
+  ("updown.splitInput", ["cIn"], 0, [("findUpDownCatchmentPushDistance", true), ("findUpDownCatchment", true)], ["0"])]
+
+theorem fanouts_conform : (fanouts == expectedFanouts) = true := by decide +kernel
+
 end Gofasta.Props.Pipes
